@@ -188,6 +188,21 @@ CLAIMED["C20"] = dict(
     technique="Coq proof (view preservation of materialize/trim; traversal instances) + heap correspondence + build oracle",
     design="4/C20")
 
+CLAIMED["C17"] = dict(
+    text=("Heap-effect discipline: every modelled read-only or copy-returning API (build, deepcopy / pickle copy, "
+          "identity rebuild, with_defaults_trimmed, partial simplification, materialize_tags, clear_argument_history) "
+          "is an instance of the memoized traversal, for which it is proved once, generically, that the input heap "
+          "is a prefix of the output heap (only appends); the frame property is re-evaluated in Coq on every "
+          "generated configuration. The sweep runs 48 entry points (printing, rendering, serialization, diffing, "
+          "validation, both code generators, selection iteration, casting/copying, trimming helpers, un-interning, "
+          "grep, yaml) on every configuration and compares, before and after, the full encoding (callables, "
+          "arguments in storage order, tags, sharing), the identities of every Buildable, container and "
+          "__arguments__ dict, and history lengths."),
+    note=COMMON_NOTE + " APIs without a model (rendering, validation, grep, yaml, code generation) are decided "
+         "by the before/after sweep only.",
+    technique="Coq proof (generic frame theorem for append-only traversals) + before/after sweep over 48 entry points",
+    design="4/C17")
+
 PENDING_REASON = "check not built yet in this session (work in progress; see DESIGN.md section 4)"
 
 
